@@ -174,6 +174,15 @@ def record_and_validate(ctx, ntraces):
 
 
 def run(ctx):
+    if ctx.replay:
+        stored = json.load(open(ctx.replay))
+        ctx.rule = f"replay of one stored case ({stored.get('key')})"
+        for key, what, case in V.replay_case(stored['case']):
+            ctx.count(1)
+            if key == stored.get('key') or not stored.get('key'):
+                ctx.violation(key, what, case)
+        ctx.sample({'replayed': stored.get('key')})
+        return
     thorough = ctx.tier == 'thorough'
     ctx.rule = ('TLC enumerates integer covariances (scalar / vector / matrix / 3-stack, with and without '
                 'noise-ceiling rows) x all (n_rdm, n_pattern) pairs, NaN-marked evaluation arrays of 2-4 dimensions '
@@ -194,10 +203,10 @@ def run(ctx):
         'evaluations (0/0) excluded; bootstrap tests need >= 2 samples, rank-sum tests a 3-d array without all-NaN folds',
         'p-values compared through scipy.stats.t (trusted kernel) to 1e-10']
     if thorough:
-        runs = [('variances_grid', cfg(2, [0, 3, 7], 3, [1, 2])),
+        runs = [('variances_grid', cfg(2, [0, 3, 7], 2, [1, 3])),
                 # every symmetric 3 x 3 integer covariance with entries -2..3 (46 656 matrices)
                 ('variances_all3x3', cfg(3, [0, 3], 0, [1], perm=False))]
-        heavy_mod, means_mod = 40, 8
+        heavy_mod, means_mod = 80, 8
     else:
         runs = [('variances_grid', cfg(1, [0, 2, 5], 2, [1, 3]))]
         heavy_mod, means_mod = 24, 1
